@@ -223,6 +223,42 @@ def run(rep, tier, seed):
             cross = [(c, +1)]
         tspan = [t0, tend] if rng_n.random() < 0.5 else [float(x) for x in np.linspace(t0, tend, int(rng_n.integers(3, 40)))]
         specs = [(cspec, d, tm)]
+        if k % 4 == 2:
+            # several components that are the same function: they cross together at a and again at b.  Each of them has to be
+            # reported at each joint crossing (the times agree to the location tolerance), whatever was reported before
+            mjoint = int(rng_n.integers(2, 4))
+            specs = [(cspec, 0, False)] * mjoint
+            hist["nonlinear_joint"] = hist.get("nonlinear_joint", 0) + 1
+            dae, y0 = P[pname]
+            case = dict(problem=pname, tspan=tspan if len(tspan) < 12 else [tspan[0], "...", tspan[-1], len(tspan)], opt=optkw,
+                        events=[[list(cspec), 0, False]] * mjoint, family="identical nonlinear event components (joint crossings)")
+            sol, tr = RC.run_rodas(dae, y0, tspan, optkw, specs)
+            if isinstance(sol, Exception):
+                fails.append((case, f"Rodas raised {type(sol).__name__}: {sol}"))
+                continue
+            lines.append(RC.protocol_line(tspan, optkw, specs, tr))
+            expect.append(RC.expected_answer(sol, tr)); cases.append(case)
+            te = [float(x) for x in np.asarray(sol.te, dtype=float)]
+            ie = [int(x) for x in sol.ie]
+            hist["events_reported"] += len(te)
+            wantc = [c_ for (c_, _) in cross if t0 < c_ < tend]
+            got = sorted(zip(te, ie))
+            bad = []
+            if len(te) != mjoint * len(wantc):
+                bad.append(f"{len(te)} events reported (te = {te}, ie = {ie}); {mjoint} identical components {cspec} cross together at {wantc}: "
+                           f"each component has to be reported at each crossing")
+            else:
+                for j, c_ in enumerate(wantc):
+                    grp = got[j * mjoint:(j + 1) * mjoint]
+                    if sorted(i for _, i in grp) != list(range(mjoint)) or any(abs(t_e - c_) > 1e-6 * max(1.0, abs(c_)) for t_e, _ in grp):
+                        bad.append(f"at the joint crossing {c_!r} the events reported are {grp}, expected every component 0..{mjoint - 1} once")
+            if any(te[j + 1] < te[j] - 1e-9 * max(1.0, abs(te[j])) for j in range(len(te) - 1)):
+                bad.append(f"reported event times are not ascending: {te}")
+            if np.asarray(sol.T, dtype=float)[-1] != tend and getattr(sol.stats, "ret", None) != "failed":
+                bad.append(f"no terminal event but the run ended at {np.asarray(sol.T)[-1]!r}, not at tend {tend!r}")
+            if bad:
+                fails.append((case, "; ".join(bad[:2])))
+            continue
         hist["nonlinear_" + cspec[0]] = hist.get("nonlinear_" + cspec[0], 0) + 1
         dae, y0 = P[pname]
         case = dict(problem=pname, tspan=tspan if len(tspan) < 12 else [tspan[0], "...", tspan[-1], len(tspan)], opt=optkw,
